@@ -79,6 +79,8 @@ class ArithmeticCrossover(VariationalOperator):
             else:
                 new_genomes[i] = genomes[i]
                 new_genomes[i + 1] = genomes[i + 1]
+        # A convex combination of two points of the box can leave it by an ulp due to rounding.
+        new_genomes = apply_bounds(new_genomes, population.problem.bounds, method="clip")
         population_copy.update_genome(new_genomes)
         if self.evaluate_fitness:
             population_copy.evaluate()
